@@ -133,8 +133,7 @@ def dedupCps : List Entry → List Entry
 
 def listing (objs : List (Bytes × Obj)) (pfx delim after : Option Bytes) (maxKeys : Option Int) : Resp :=
   let p := pfx.getD []
-  let keys := sortByKey (objs.map fun e => (e.1, e.2.content.length))
-  let under := keys.filter fun e => p.isPrefixOf e.1
+  let under := sortByKey ((objs.filter fun e => p.isPrefixOf e.1).map fun e => (e.1, e.2.content.length))
   let later := match after with
     | none => under
     | some m => under.filter fun e => bytesLt m e.1
